@@ -361,8 +361,13 @@ impl Cursor for MCursor {
 // every input removed by the edit, the setsum is their sum), and the entries of the inputs
 uninterp spec fn setup_ok(c: Compaction, e: Edit, s: Setsum) -> bool;
 uninterp spec fn inputs_ents(c: Compaction) -> Seq<Ent>;
-// what the configured policy retains of a table (the collector's emissions: unit sst_gc)
-uninterp spec fn gc_plan(e: Seq<Ent>) -> Seq<KT>;
+// what the configured policy retains of a table when the collector is handed a cursor standing at position `from`
+// ("a cursor positioned at the first key to be considered": unit sst_gc)
+uninterp spec fn gc_plan(e: Seq<Ent>, from: int) -> Seq<KT>;
+impl MCursor {
+    #[verifier::external_body]
+    fn clone(&self) -> (r: MCursor) ensures r == *self { unimplemented!() }
+}
 impl Setsum {
     uninterp spec fn is_zero(&self) -> bool;
     #[verifier::external_body]
@@ -387,10 +392,11 @@ impl LsmTree {
     // `SstMultiBuilder::new(compaction_dir.clone(), ".sst".to_string(), self.options.sst.clone())` (unit sst_multi)
     #[verifier::external_body]
     fn new_multi_builder(&self, dir: DirPath) -> (r: SstMultiBuilder) ensures r.out() == Seq::<Ent>::empty() { unimplemented!() }
-    // `let mut gc_cursor = cursor.clone(); gc_cursor.next()?; self.options.gc_policy.collector(gc_cursor, 0)?`
+    // `self.options.gc_policy.collector(gc_cursor, 0)`: the collector works from where the cursor it is given stands
     #[verifier::external_body]
-    fn new_collector(&self, cursor: &MCursor) -> (r: Result<Gc, SError>)
-        ensures r is Ok ==> r->Ok_0.rest() == gc_plan(cursor.ents()),
+    fn new_collector(&self, cursor: MCursor) -> (r: Result<Gc, SError>)
+        requires cursor.wf(),
+        ensures r is Ok ==> r->Ok_0.rest() == gc_plan(cursor.ents(), cursor.pos()),
     { unimplemented!() }
     // compaction_finish: what it may assume of its arguments (unit lsmtk_balance carries on from setup_ok)
     #[verifier::external_body]
@@ -401,8 +407,8 @@ impl LsmTree {
             (discard_setsum.is_zero() && paths.content() == inputs_ents(compaction))
             // ... or a garbage collection of the bottom level: the files hold what the policy retains, the discard is the rest
             || (compaction.core.upper_level == NUM_LEVELS - 1
-                && paths.content() == kept(inputs_ents(compaction), 0, gc_plan(inputs_ents(compaction)))
-                && Discard::of(discard_setsum) == dropped(inputs_ents(compaction), 0, gc_plan(inputs_ents(compaction)))),
+                && paths.content() == kept(inputs_ents(compaction), 0, gc_plan(inputs_ents(compaction), 0))
+                && Discard::of(discard_setsum) == dropped(inputs_ents(compaction), 0, gc_plan(inputs_ents(compaction), 0))),
     { unimplemented!() }
 
 //@ extract lsmtk/src/tree/mod.rs | impl LsmTree :: fn perform_compaction
@@ -417,7 +423,7 @@ impl LsmTree {
 
 //@ extract lsmtk/src/tree/mod.rs | impl LsmTree :: fn perform_garbage_collection
 //@ ret r
-//@ rewrite-re X7 `let mut gc_cursor = cursor\.clone\(\);\s*gc_cursor\.next\(\)\?;\s*let mut gc = self\.options\.gc_policy\.collector\(gc_cursor, 0\)\?;` => `let mut gc = self.new_collector(&cursor)?;`
+//@ rewrite-re X7 `self\.options\.gc_policy\.collector\((\w+), 0\)` => `self.new_collector(\1)`
 //@ rewrite-re X7 `(?s)SstMultiBuilder::new\(\s*compaction_dir\.clone\(\),\s*"\.sst"\.to_string\(\),\s*self\.options\.sst\.clone\(\),\s*\)` => `self.new_multi_builder(compaction_dir.clone())`
 //@ rewrite-re X16 `(?s)let mut gc_next = gc\.next\(\)\?;.*?\n        \}\n        drop\(cursor\);` => `let discard = gc_copy(&mut cursor, &mut gc, &mut sstmb)?.into_setsum();`
 //@ pre <<
